@@ -25,9 +25,9 @@ P = {
         "Proved for all inputs (any n, m, weights, any 2x6 scheme with symmetric T): every off-diagonal cell of the table "
         "built by the numba kernel equals the definitional sum over rankings, the diagonal is 0, inputs are unchanged, "
         "all subscripts are in range; mirror consistency follows from two induction lemmas; one iteration of "
-        "Dataset.get_bucket_ids writes exactly the bucket index of every element of the ranking into its column "
-        "(fragment, element ids an injective uninterpreted function). Bounded: the position matrix and the id mapping "
-        "of Dataset, default weights of the wrapper, and 'selected entries add up to the Kemeny score' "
+        "Dataset.get_bucket_ids / get_positions writes exactly the bucket index / the position minus one of every "
+        "element of the ranking into its column and nothing else (fragments, element ids an injective uninterpreted "
+        "function). Bounded: the id mapping and the positions dict of the Ranking objects, default weights of the wrapper, and 'selected entries add up to the Kemeny score' "
         "(exhaustive candidates n <= 4)."), tech=TECH_MIX),
     "C03": dict(cat="other", text=(
         "Bounded: the well-formedness contract W on every algorithm configuration (19, cplex absent / stand-in) x dataset "
